@@ -409,7 +409,7 @@ type c31Phase struct {
 
 func TestC31(t *testing.T) {
 	r := mc.NewRun(t, "C31", mc.ModelChecking)
-	ia1, ia2 := addr.MustParseIA("1-ff00:0:110"), addr.MustParseIA("2-ff00:0:210")
+	ia1, ia2 := addr.MustParseIA("1-ff00:0:110"), addr.MustParseIA("2-ff00:0:110") // same AS number, other ISD
 	// k0/k1 share the AS, k0/k2 share the interface number: a key that ignores either part merges them.
 	k0, k1, k2, k3 := revcache.Key{IA: ia1, IfID: iface.ID(1)}, revcache.Key{IA: ia1, IfID: iface.ID(2)},
 		revcache.Key{IA: ia2, IfID: iface.ID(1)}, revcache.Key{IA: ia2, IfID: iface.ID(2)}
